@@ -137,6 +137,13 @@ func (w *World) anyGoverned() bool {
 }
 
 func worldClasses(w *World, st *VStats) {
+	seenNN := map[string]bool{}
+	for _, x := range w.Workloads {
+		if seenNN[x.Ns+"/"+x.Name] {
+			st.Class("two workloads of different kinds share namespace/name")
+		}
+		seenNN[x.Ns+"/"+x.Name] = true
+	}
 	seen := map[string]bool{}
 	c := func(s string) {
 		if !seen[s] {
@@ -252,7 +259,38 @@ type C01Case struct {
 }
 
 func genC01(t *rapid.T) *C01Case {
-	return &C01Case{W: GenWorld(t, GenCfg{OmitNs: rapid.IntRange(0, 3).Draw(t, "omitns") == 0})}
+	w := GenWorld(t, GenCfg{OmitNs: rapid.IntRange(0, 3).Draw(t, "omitns") == 0})
+	addTwinPod(t, w)
+	return &C01Case{W: w}
+}
+
+// addTwinPod: in a sixth of the cases a controller-kind workload gets a bare Pod of the same namespace and NAME next to
+// it (legal: names are unique per kind; the pods are ns/name and ns/name-1, so nothing collides). They are two
+// workloads, each with its own connections - also with each other.
+func addTwinPod(t *rapid.T, w *World) {
+	var cands []int
+	for i, x := range w.Workloads {
+		if x.Kind == "Pod" || isOwned(x.Kind) || strings.HasSuffix(x.Name, "-1") {
+			continue
+		}
+		ok := true
+		for _, y := range w.Workloads {
+			// no other workload may share the (ns, name) already
+			if y.Ns == x.Ns && y.Name == x.Name && y.Kind != x.Kind {
+				ok = false
+			}
+		}
+		if ok {
+			cands = append(cands, i)
+		}
+	}
+	if len(cands) == 0 || rapid.IntRange(0, 3).Draw(t, "twin") != 0 {
+		return
+	}
+	x := w.Workloads[cands[rapid.IntRange(0, len(cands)-1).Draw(t, "twinof")]]
+	tw := genWorkload(t, "twinwl", x.Ns, &GenCfg{})
+	tw.Name, tw.Kind = x.Name, "Pod"
+	w.Workloads = append(w.Workloads, tw)
 }
 
 // listOrDeviation runs list and applies the one documented deviation (named port on an IP destination).
